@@ -153,4 +153,54 @@ Section Inv.
 
   Theorem change_empty_keeps d u v : fst (step d (DidChange _ u v [])) = d.
   Proof. reflexivity. Qed.
+  (* ---- C12: the life of the process ---- *)
+  Notation session := (session text D T diag no_diag tokens null_tokens).
+  Notation frame := (frame text).
+
+  (* after any messages, shutdown followed by exit: everything the messages call for has been written, the shutdown
+     request is answered, the status is 0 -- whatever follows the exit notification *)
+  Theorem session_shutdown_exit ms : forall d id rest,
+    session d (map (Msg text) ms ++ Shutdown text id :: Exit text :: rest)
+    = mkEnded D T (snd (run d ms)) (Some id) true.
+  Proof.
+    induction ms as [|m r IH]; intros d id rest; [reflexivity|].
+    cbn [map app Lsp.session Lsp.run]. destruct (step d m) as [d1 o1]. rewrite (IH d1 id rest).
+    destruct (run d1 r) as [d2 o2]. reflexivity.
+  Qed.
+
+  (* the status is 0 only then *)
+  Theorem session_clean_iff fs : forall d,
+    e_clean D T (session d fs) = true <-> exists ms id rest, fs = map (Msg text) ms ++ Shutdown text id :: Exit text :: rest.
+  Proof.
+    induction fs as [|f r IH]; intro d.
+    - cbn. split; [discriminate|]. intros (ms & id & rest & H). destruct ms; discriminate.
+    - destruct f as [m|id|].
+      + cbn [Lsp.session]. destruct (step d m) as [d1 o1]. cbn [e_clean]. rewrite (IH d1). split.
+        * intros (ms & id & rest & H). exists (m :: ms), id, rest. rewrite H. reflexivity.
+        * intros (ms & id & rest & H). destruct ms as [|m0 ms]; [discriminate|]. cbn [map app] in H. inversion H. subst.
+          exists ms, id, rest. reflexivity.
+      + cbn [Lsp.session e_clean]. split.
+        * intro H. destruct r as [|[m|i|] r']; try discriminate. exists [], id, r'. reflexivity.
+        * intros (ms & id' & rest & H). destruct ms as [|m0 ms]; [|discriminate]. cbn [map app] in H. inversion H. reflexivity.
+      + cbn. split; [discriminate|]. intros (ms & id & rest & H). destruct ms; discriminate.
+  Qed.
+
+  (* the requests read before the end are answered once each, in order; nothing after the end is answered; a shutdown
+     request is answered exactly when it is reached *)
+  Fixpoint served (fs : list frame) : list msg :=
+    match fs with Msg _ m :: r => m :: served r | _ => [] end.
+  Fixpoint reached_shutdown (fs : list frame) : option N :=
+    match fs with Msg _ _ :: r => reached_shutdown r | Shutdown _ id :: _ => Some id | _ => None end.
+
+  Theorem session_replies fs : forall d,
+    flat_map reply_id (e_out D T (session d fs)) = flat_map request_id (served fs)
+    /\ e_shutdown D T (session d fs) = reached_shutdown fs
+    /\ e_out D T (session d fs) = snd (run d (served fs)).
+  Proof.
+    induction fs as [|f r IH]; intro d; [repeat split|].
+    destruct f as [m|id|]; [|repeat split|repeat split].
+    cbn [Lsp.session served reached_shutdown Lsp.run flat_map]. pose proof (step_replies d m) as Hs.
+    destruct (step d m) as [d1 o1]. destruct (IH d1) as (H1 & H2 & H3). cbn [e_out e_shutdown snd] in *.
+    rewrite flat_map_app, Hs, H1, H2, H3. destruct (run d1 (served r)) as [d2 o2]. repeat split.
+  Qed.
 End Inv.
